@@ -189,6 +189,24 @@ end
 
 def Src.beforeFlatB (s : Src) : Bool := allBeforeFlatB s.exprs
 
+mutual
+/-- `beforeFlatB` carried through parentheses and calls homomorphically (no condition of their own):
+    the exclusion of the container fragment alone. `C18.cex_comment_after_open_paren` shows that it
+    does not suffice once parentheses are in the fragment. -/
+def Expr.beforeFlatG : Expr → Bool
+  | .leaf .. => true
+  | .list v ml _ _ _ => (ml || allBeforeEmpty v) && allBeforeFlatG v
+  | .set v ml _ _ _ _ => (ml || allBeforeEmpty v) && allBeforeFlatG v
+  | .binding _ v _ _ _ => v.beforeFlatG
+  | .paren v _ _ _ _ _ _ => v.beforeFlatG
+  | .app n x _ _ _ _ => n.beforeFlatG && x.beforeFlatG
+def allBeforeFlatG : List Expr → Bool
+  | [] => true
+  | e :: rest => e.beforeFlatG && allBeforeFlatG rest
+end
+
+def Src.beforeFlatG (s : Src) : Bool := allBeforeFlatG s.exprs
+
 /-! ### the container-only part of the fragment
 
 The theorems of C18 (spacing normal form) and C06 (fixed point of comment-free files) are proved for
